@@ -972,7 +972,7 @@ theorem scan_pixel_counts (v : SView) (f : Frame) (fs : List Frame) (h : v.frame
 /-- non-vacuity: a 2×3 frame scanned along the columns with 20 ns between neighbours; cropping columns `1:` gives a
     view that reports 20 ns -/
 def exScan : SView :=
-  ⟨[[[⟨1, 0, 10⟩, ⟨1, 20, 30⟩, ⟨1, 40, 50⟩], [⟨1, 100, 110⟩, ⟨1, 120, 130⟩, ⟨1, 140, 150⟩]]], 10, false⟩
+  ⟨[[[⟨1, 0, 10⟩, ⟨1, 20, 30⟩, ⟨1, 40, 50⟩], [⟨1, 100, 110⟩, ⟨1, 120, 130⟩, ⟨1, 140, 150⟩]]], 10, false, 0, 200⟩
 
 example : (match exScan.slice none none none none (some 1) none with
      | .view w => decide (w.pixelTime = some 20 ∧ w.pixelsPerLine = 2 ∧ w.linesPerFrame = 2)
@@ -985,5 +985,168 @@ theorem time_to_frame_start (v : SView) (t : Int) (hs : (v.ranges.map (·.1)).Pa
   unfold SView.timeToFrame
   simp only [↓reduceIte, Int.ofNat_lt]
   exact lt_searchsortedLeft_iff _ hs t c hc
+
+/-! ## Scans: `scan[item]` as the user calls it -/
+
+theorem axis_check_error (x : SAxisItem) (e : Err) (h : x.check = .error e) : e = .indexError := by
+  cases x with
+  | slice a b step =>
+    simp only [SAxisItem.check] at h
+    split at h
+    · injection h with h; exact h.symm
+    · cases h
+  | int => injection h with h; exact h.symm
+  | other => injection h with h; exact h.symm
+
+theorem mapM_check_error (sp : List SAxisItem) (h : ∃ x ∈ sp, ∃ e, x.check = .error e) :
+    sp.mapM SAxisItem.check = .error .indexError := by
+  induction sp with
+  | nil => obtain ⟨x, hx, _⟩ := h; cases hx
+  | cons y ys ih =>
+    rw [List.mapM_cons]
+    cases hy : y.check with
+    | error e => rw [axis_check_error y e hy]; rfl
+    | ok r =>
+      obtain ⟨x, hx, e, he⟩ := h
+      have hx' : x ∈ ys := by
+        rcases List.mem_cons.mp hx with rfl | hx'
+        · rw [hy] at he; cases he
+        · exact hx'
+      rw [ih ⟨x, hx', e, he⟩]; rfl
+
+/-- Refused items: a frame item that is neither an integer nor a slice, a frame slice with a step — `IndexError`
+    whatever else is written; with an integer frame index, any spatial item that is not a slice without step (a scalar,
+    a stepped slice, anything else) — `IndexError` as well, before any frame is looked up. -/
+theorem scan_getitem_validation (v : SView) (a b : SBound) (i : Int) (sp : List SAxisItem) :
+    v.getitem .other sp = .err .indexError ∧
+    v.getitem (.slice a b true) sp = .err .indexError ∧
+    ((∃ x ∈ sp, ∃ e, x.check = .error e) → v.getitem (.int i) sp = .err .indexError) := by
+  refine ⟨rfl, rfl, ?_⟩
+  intro h
+  simp only [SView.getitem, mapM_check_error sp h]
+
+/-- How a bound of the frame slice is read: `None` stays open; an integer below `_FIRST_TIMESTAMP` is a frame index
+    as it stands; an integer from `_FIRST_TIMESTAMP` on is looked up in the frame starts / stops; a time string that
+    `Timeindex` reads as `ns` is the timestamp `start + ns` (`ns ≥ 0`) or `stop + ns` (`ns < 0`) of the scan's own window,
+    then treated like an integer; a string `Timeindex` rejects is a `RuntimeError`. -/
+theorem scan_bound_resolution (v : SView) (isStart : Bool) :
+    v.timeToFrameB isStart .none = .ok none ∧
+    (∀ n, n < firstTimestamp → v.timeToFrameB isStart (.num n) = .ok (some n)) ∧
+    (∀ t, firstTimestamp ≤ t → v.timeToFrameB isStart (.num t) = .ok (some (v.timeToFrame t isStart))) ∧
+    (∀ s, C01.parseTime s = none → v.timeToFrameB isStart (.str s) = .error .runtimeError) ∧
+    (∀ s ns, C01.parseTime s = some ns →
+      v.timeToFrameB isStart (.str s) = v.timeToFrameB isStart (.num (if ns ≥ 0 then v.tStart + ns else v.tStop + ns))) := by
+  refine ⟨rfl, ?_, ?_, ?_, ?_⟩
+  · intro n h; simp [SView.timeToFrameB, h]
+  · intro t h; have : ¬ t < firstTimestamp := by omega
+    simp [SView.timeToFrameB, this]
+  · intro s h; simp [SView.timeToFrameB, h]
+  · intro s ns h; simp [SView.timeToFrameB, h, C01.resolve]
+
+/-- Accepted items select what `scan_index_refines` / `scan_slice_refines` describe (rows from the first spatial slice,
+    columns from the second, a missing one is the full axis), and the result gets its start / stop stamped. -/
+theorem scan_getitem_refines (v : SView) (i : Int) (a b : SBound) (a' b' y0 y1 x0 x1 : Option Int)
+    (ha : v.timeToFrameB true a = .ok a') (hb : v.timeToFrameB false b = .ok b') :
+    v.getitem (.int i) [] = (v.index i none none none none).stamp ∧
+    v.getitem (.int i) [.slice y0 y1 false] = (v.index i y0 y1 none none).stamp ∧
+    v.getitem (.int i) [.slice y0 y1 false, .slice x0 x1 false] = (v.index i y0 y1 x0 x1).stamp ∧
+    v.getitem (.slice a b false) [] = (v.slice a' b' none none none none).stamp ∧
+    v.getitem (.slice a b false) [.slice y0 y1 false] = (v.slice a' b' y0 y1 none none).stamp ∧
+    v.getitem (.slice a b false) [.slice y0 y1 false, .slice x0 x1 false] = (v.slice a' b' y0 y1 x0 x1).stamp := by
+  refine ⟨rfl, rfl, rfl, ?_, ?_, ?_⟩ <;> simp [SView.getitem, ha, hb, SAxisItem.check, pure, Except.pure, bind, Except.bind]
+
+/-- Time → frame index, stop bound: the number of frames that stop before the timestamp. -/
+theorem time_to_frame_stop (v : SView) (t : Int) (hs : (v.ranges.map (·.2)).Pairwise (· ≤ ·)) (c : Nat)
+    (hc : c < (v.ranges.map (·.2)).length) :
+    ((c : Int) < v.timeToFrame t false) ↔ (v.ranges.map (·.2))[c] < t := by
+  unfold SView.timeToFrame
+  simp only [Bool.false_eq_true, ↓reduceIte, Int.ofNat_lt]
+  exact lt_searchsortedLeft_iff _ hs t c hc
+
+/-- frame start / stop timestamps of a scan view -/
+abbrev sStarts (v : SView) : List Int := v.ranges.map (·.1)
+abbrev sStops (v : SView) : List Int := v.ranges.map (·.2)
+
+theorem pySliceOpt_none_none {α} (l : List α) : pySliceOpt l none none = l := by
+  have : ¬ ((l.length : Int) < 0) := by omega
+  simp [pySliceOpt, pySlice, pyNorm, this]
+
+theorem cropFrame_none (f : Frame) : cropFrame f none none none none = f := by
+  simp [cropFrame, pySliceOpt_none_none]
+
+/-- **A time window on a scan.**  With frame starts and frame stops in order, `scan[a:b]` for two timestamps keeps
+    exactly the frames that start at or after `a` AND stop before `b` (the frames lying inside the window), as one
+    contiguous run of the frame list, with start / stop stamped; no such frame: the empty scan. -/
+theorem scan_time_window (v : SView) (a b : Int) (ha : firstTimestamp ≤ a) (hb : firstTimestamp ≤ b)
+    (hs : (sStarts v).Pairwise (· ≤ ·)) (he : (sStops v).Pairwise (· ≤ ·))
+    (hne : ∀ f ∈ v.frames, emptyAxis f = false) :
+    (∀ c (h1 : c < (sStarts v).length) (h2 : c < (sStops v).length),
+      (searchsortedLeft (sStarts v) a ≤ c ∧ c < searchsortedLeft (sStops v) b) ↔
+        (a ≤ (sStarts v)[c] ∧ (sStops v)[c] < b)) ∧
+    v.getitem (.slice (.num a) (.num b) false) [] =
+      (if (v.frames.take (searchsortedLeft (sStops v) b)).drop (searchsortedLeft (sStarts v) a) = []
+       then .empty
+       else .view ({ v with frames :=
+          (v.frames.take (searchsortedLeft (sStops v) b)).drop (searchsortedLeft (sStarts v) a) }).stamp) := by
+  constructor
+  · intro c h1 h2
+    have e1 := lt_searchsortedLeft_iff _ hs a c h1
+    have e2 := lt_searchsortedLeft_iff _ he b c h2
+    omega
+  · have na : ¬ a < firstTimestamp := by omega
+    have nb : ¬ b < firstTimestamp := by omega
+    generalize hiA : searchsortedLeft (sStarts v) a = iA
+    generalize hiB : searchsortedLeft (sStops v) b = iB
+    have hget : v.getitem (.slice (.num a) (.num b) false) [] =
+        (v.slice (some (iA : Int)) (some (iB : Int)) none none none none).stamp := by
+      simp [SView.getitem, SView.timeToFrameB, na, nb, SView.timeToFrame, hiA, hiB, pure, Except.pure]
+    have hfs : pySliceOpt v.frames (some (iA : Int)) (some (iB : Int)) = (v.frames.take iB).drop iA := by
+      simp only [pySliceOpt, Option.getD_some]
+      rw [C01.pySlice_nonneg _ _ _ (by omega) (by omega)]
+      simp
+    rw [hget, scan_slice_refines, hfs]
+    by_cases hnil : (v.frames.take iB).drop iA = []
+    · simp [hnil, SRes.stamp]
+    · have hany : ((v.frames.take iB).drop iA).any (fun f => emptyAxis (cropFrame f none none none none)) = false := by
+        rw [List.any_eq_false]
+        intro f hf
+        rw [cropFrame_none]
+        have := hne f (List.mem_of_mem_take (List.mem_of_mem_drop hf))
+        simp [this]
+      have hmap : ((v.frames.take iB).drop iA).map (fun f => cropFrame f none none none none) = (v.frames.take iB).drop iA := by
+        conv => rhs; rw [← List.map_id ((v.frames.take iB).drop iA)]
+        apply List.map_congr_left
+        intro f _; rw [cropFrame_none]; rfl
+      simp only [hnil, ↓reduceIte, hany, Bool.false_eq_true, hmap, SRes.stamp]
+
+/-- The start a `__getitem__` stamps on its result is the start of the first frame it shows (dead time or not). -/
+theorem scan_stamp_start (w : SView) : w.stamp.tStart = ((w.ranges.head?).map (·.1)).getD 0 := by
+  unfold SView.stamp
+  by_cases h : w.numFrames > 1
+  · simp only [h, ↓reduceIte]
+    unfold SView.deadRanges
+    split
+    · rename_i s0 s1 rest heq
+      cases hr : w.ranges with
+      | nil => rw [hr] at heq; cases heq
+      | cons r rs =>
+        rw [hr] at heq
+        simp only [List.map_cons, List.cons.injEq] at heq
+        simp [heq.1]
+    · rfl
+  · simp only [h, ↓reduceIte]
+
+/-- non-vacuity: three one-pixel-row frames; `scan["100ns":"-50ns"]` on the window `[0, 700]`, read as timestamps
+    `firstTimestamp + …` -/
+def exScan3 : SView :=
+  ⟨[[[⟨1, firstTimestamp + 0, firstTimestamp + 10⟩, ⟨1, firstTimestamp + 20, firstTimestamp + 30⟩]],
+    [[⟨2, firstTimestamp + 200, firstTimestamp + 210⟩, ⟨2, firstTimestamp + 220, firstTimestamp + 230⟩]],
+    [[⟨3, firstTimestamp + 400, firstTimestamp + 410⟩, ⟨3, firstTimestamp + 420, firstTimestamp + 430⟩]]], 10, false,
+    firstTimestamp, firstTimestamp + 700⟩
+
+example : (match exScan3.getitem (.slice (.str "100ns") (.str "-50ns") false) [] with
+    | .view w => decide (w.frames.map values = [[[2, 2]], [[3, 3]]] ∧ w.tStart = firstTimestamp + 200 ∧
+        w.tStop = firstTimestamp + 600)
+    | _ => false) = true := by decide +kernel
 
 end Verif.C06
